@@ -2,7 +2,7 @@
 """prints the seeded-change detection matrix (markdown) from /verif/seeded/*/meta.json"""
 import json, glob, os
 rows = []
-for d in sorted(glob.glob('/verif/seeded/*')):
+for d in sorted(glob.glob('/verif/seeded/C*-mut*')):
     m = json.load(open(os.path.join(d, 'meta.json')))
     title = ''
     n = os.path.join(d, 'notes.md')
